@@ -451,6 +451,16 @@ InFlightAtomic == (Quiet /\ inflight # 0 /\ inflight \notin acked) =>
   \/ \A i \in 1..Len(writes[inflight]) : Present(inflight, i) \/ Overwritten(inflight, i)
   \/ \A i \in 1..Len(writes[inflight]) : Absent(inflight, i)
 
+\* C02 with the known deviation "Reappend" (every replay of a transaction group appends its variable records again): the
+\* checkpoint written after EACH replayed group bounds the damage - a record appears at most 1 + (number of crashes) times,
+\* and at most ONE group (the one whose replay a second crash interrupted) is replayed by two recoveries
+VarRecIds == {r * 10 + i : r \in 1..req, i \in 1..MaxCmds} \cap
+             {x \in 1..(req * 10 + MaxCmds) : ReqOf(x) \in 1..req /\ (x % 10) \in 1..Len(writes[ReqOf(x)]) /\ writes[ReqOf(x)][x % 10].f \in VarFiles}
+VarCount(x) == LET c == writes[ReqOf(x)][x % 10] IN IF Blob(c.f, c.s).ok THEN Count(Blob(c.f, c.s).recs, x) ELSE 0
+ReappendBounded == Quiet =>
+  /\ \A x \in VarRecIds : VarCount(x) <= 1 + crashes
+  /\ Cardinality({ReqOf(x) : x \in {y \in VarRecIds : VarCount(y) >= 3}}) <= 1
+
 \* C03: start-up never fails on the state a crash leaves behind, and data stays readable
 StartupOk == bad = "none"
 Readable == Quiet => \A f \in VarFiles, s \in Slots : Blob(f, s).ok
